@@ -127,6 +127,16 @@ func (E *Engine) buildVCs(key string) (res *FuncResult) {
 	}
 	entry := st.clone()
 	fr.entry = entry
+	fx.topFrame = fr
+	fx.entryState = entry
+	if ct != nil && !isInit {
+		var mods []string
+		mods = append(mods, ct.Modifies...)
+		if ict != nil {
+			mods = append(mods, ict.Modifies...)
+		}
+		fx.allowed = fr.computeAllowed(mods, entry)
+	}
 	rets, out, oc := fr.run(st, "true")
 	if oc == "false" {
 		fx.note("function never returns normally")
@@ -191,23 +201,19 @@ func (E *Engine) buildVCs(key string) (res *FuncResult) {
 	return
 }
 
-// checkFrame emits frame obligations: every heap/ghost component that differs from the entry state
-// must be covered by a modifies entry.
-func (fr *Frame) checkFrame(mods []string, entry, out *State, oc string) {
+type frameAllow struct {
+	total bool
+	refs  []string // point exemptions
+}
+
+// computeAllowed resolves a modifies clause (of the top-level function) to per-component exemptions
+func (fr *Frame) computeAllowed(mods []string, entry *State) map[string]*frameAllow {
 	fx := fr.fx
-	pt := map[string]types.Type{}
-	for _, p := range fr.fn.Params {
-		pt[p.Name()] = p.Type()
-	}
-	type allow struct {
-		total bool
-		refs  []string // point exemptions
-	}
-	allowed := map[string]*allow{}
-	get := func(k string) *allow {
+	allowed := map[string]*frameAllow{}
+	get := func(k string) *frameAllow {
 		a := allowed[k]
 		if a == nil {
-			a = &allow{}
+			a = &frameAllow{}
 			allowed[k] = a
 		}
 		return a
@@ -294,6 +300,47 @@ func (fr *Frame) checkFrame(mods []string, entry, out *State, oc string) {
 			}
 		}
 	}
+	return allowed
+}
+
+// frameGoal: "component k is unchanged (outside its exemptions) for every pre-existing object"
+func (fx *Fx) frameGoal(k string, a *frameAllow, t1, t0, alloc0 string) string {
+	if strings.HasPrefix(k, "G|") {
+		return eq(t1, t0)
+	}
+	r := fx.fresh("fr", "Int")
+	hyp := []string{"(< 0 " + r + ")", "(< " + r + " " + alloc0 + ")"}
+	if a != nil {
+		for _, x := range a.refs {
+			hyp = append(hyp, not(eq(r, x)))
+		}
+	}
+	return implies(and(hyp...), eq(sel(t1, r), sel(t0, r)))
+}
+
+// frameGoalQ is the quantified form of frameGoal (usable as an assumption)
+func (fx *Fx) frameGoalQ(k string, a *frameAllow, t1, t0, alloc0 string) string {
+	if t1 == t0 {
+		return "true"
+	}
+	r := fx.freshName("q_fr")
+	hyp := []string{"(< 0 " + r + ")", "(< " + r + " " + alloc0 + ")"}
+	if a != nil {
+		for _, x := range a.refs {
+			hyp = append(hyp, not(eq(r, x)))
+		}
+	}
+	return fmt.Sprintf("(forall ((%s Int)) (! %s :pattern ((select %s %s))))", r, implies(and(hyp...), eq(sel(t1, r), sel(t0, r))), t1, r)
+}
+
+// checkFrame emits frame obligations: every heap/ghost component that differs from the entry state
+// must be covered by a modifies entry.
+func (fr *Frame) checkFrame(mods []string, entry, out *State, oc string) {
+	fx := fr.fx
+	allowed := fx.allowed
+	if allowed == nil {
+		allowed = fr.computeAllowed(mods, entry)
+	}
 	var ks []string
 	for k := range out.comp {
 		ks = append(ks, k)
@@ -312,19 +359,7 @@ func (fr *Frame) checkFrame(mods []string, entry, out *State, oc string) {
 		if a != nil && a.total {
 			continue
 		}
-		var goal string
-		if strings.HasPrefix(k, "G|") {
-			goal = eq(t1, t0)
-		} else {
-			r := fx.fresh("fr", "Int")
-			hyp := []string{"(< 0 " + r + ")", "(< " + r + " " + alloc0 + ")"}
-			if a != nil {
-				for _, x := range a.refs {
-					hyp = append(hyp, not(eq(r, x)))
-				}
-			}
-			goal = implies(and(hyp...), eq(sel(t1, r), sel(t0, r)))
-		}
+		goal := fx.frameGoal(k, a, t1, t0, alloc0)
 		fx.obligeNamed(fr.key+"#frame", "frame", []string{"frame"}, oc, goal, fx.E.pos(fr.fn.Pos()), "frame: "+k+" unchanged outside the modifies clause")
 	}
 }
@@ -495,7 +530,10 @@ func (E *Engine) solveOne(r *FuncResult, o *Obligation, dir string, sem chan str
 		solver string
 		extra  []string
 	}
-	cfgs := []cfg{{"z3-new", nil}, {"z3-new-mbqi", nil}, {"z3", nil}, {"cvc5", nil}}
+	// z3 4.8.12 is used in E-matching mode only: in its default (MBQI) mode it answered unsat on an
+	// obligation that is false on the real code (known finding F8b) and that z3 5.1 and cvc5 do not
+	// prove, so its MBQI answers are not trusted (DESIGN.md A2)
+	cfgs := []cfg{{"z3-new", nil}, {"z3-new-mbqi", nil}, {"z3-ematch", nil}, {"cvc5", nil}}
 	resc := make(chan SolverRes, len(cfgs))
 	for _, c := range cfgs {
 		c := c
